@@ -290,18 +290,31 @@ def run(tier, res, force_search=False):
         procs = [2] if (tier == "quick" and not boost) else [1, 2, 3]
         for S in chosen:
             obs, hist, fut = obs0.copy(), hist0.copy(), fut0.copy()
-            arr, tkey, bad = (obs, "time_obs", np.nan) if name == "rw/QuantileMapping" else (fut, "time_cm_future", float(G.M_ERR))
+            arr, tkey, bad = (obs, "time_obs", np.nan) if name == "rw/QuantileMapping" else (fut, "time_cm_future", float(rng.choice([G.M_ERR, G.M_ERR2])))
             mid = [t for t, d in enumerate(kw[tkey]) if 120 <= d.timetuple().tm_yday <= 250]
             for c in S:
                 arr[rng.choice(mid), c[0], c[1]] = bad
             _, errs = G.stacked(more[name], obs, hist, fut, fut.shape[0], fut.dtype, **kw)
             case = dict(what="builtin/" + name, kind="deb", nx=nx, ny=ny, starts=starts, lengths=lengths, planted=f"{bad} mid-year in {tkey[5:]}",
                         S=[list(c) for c in S], nprocs=procs, seed=C.seed())
-            if set(errs) != set(S):
+            # ground truth that does not go through the code under test: scipy's fit rejects the contaminated column / the probe raises by construction
+            if name == "rw/QuantileMapping":
+                must = {c: G.fit_rejects(obs[:, c[0], c[1]]) for c in S}
+            else:
+                must = {c: ("ProbeError" if bad == G.M_ERR else "ValueError") for c in S}
+            pcase = {**case, **G.pack(obs, hist, fut), **G.pack(obs0, hist0, fut0, "clean_")}
+            if all(must.values()):
+                case["expected_classes"] = pcase["expected_classes"] = [must[c] for c in cells if c in must]
+                silent = sorted(set(S) - set(errs))
+                if silent:
+                    problems.append((f"{name}: location {silent[0]} must fail (its window function is handed data that {'scipy.stats.norm.fit rejects with ' + must[silent[0]] if 'Quantile' in name else 'makes it raise ' + must[silent[0]]}) "
+                                     f"but apply_location on the cell alone returned a result", pcase))
+                classes = case["expected_classes"]
+            elif set(errs) != set(S):
                 res.notes.append(f"{name}: planted {sorted(S)}, raising {sorted(errs)} — case skipped")
                 continue
-            classes = [type(errs[c]).__name__ for c in cells if c in errs]
-            pcase = {**case, **G.pack(obs, hist, fut), **G.pack(obs0, hist0, fut0, "clean_")}
+            else:
+                classes = [type(errs[c]).__name__ for c in cells if c in errs]
             for failsafe in (True, False):
                 runs = [("serial", True, G.run_apply(more[name](), obs, hist, fut, failsafe=failsafe, **kw))]
                 runs += [(f"parallel/{p}", False, G.run_apply(more[name](), obs, hist, fut, parallel=True, nproc=p, failsafe=failsafe, **kw)) for p in procs]
@@ -346,12 +359,21 @@ def run(tier, res, force_search=False):
                 arr[rng.randrange(arr.shape[0]), c[0], c[1]] = bad
             _, errs = G.stacked(deb, obs, hist, fut, fut.shape[0], fut.dtype)
             case = dict(what="builtin/" + name, kind="deb", nx=nx, ny=ny, T=T, planted=f"{bad} in {where}", S=[list(c) for c in S], nprocs=procs, seed=C.seed())
-            if set(errs) != set(S):  # the contamination does not make exactly these cells raise: not an instance of the property
+            pcase = {**case, **G.pack(obs, hist, fut), **G.pack(obs0, hist0, fut0, "clean_")}
+            must = {c: (G.fit_rejects(arr[:, c[0], c[1]]) if where in G.FITTED.get(name, ()) else None) for c in S}
+            raising_seen.setdefault(name, set()).update(f"{type(e).__name__}: {str(e)[:50]}" for e in errs.values())
+            if S and all(must.values()):  # independent ground truth: the debiaser fits this input and scipy's fit rejects the contaminated series
+                case["expected_classes"] = pcase["expected_classes"] = [must[c] for c in cells if c in must]
+                silent = sorted(set(S) - set(errs))
+                if silent:
+                    problems.append((f"{name}: location {silent[0]} must fail (scipy.stats.norm.fit rejects its {where} series with {must[silent[0]]}) but "
+                                     f"apply_location on the cell alone returned a result", pcase))
+                classes = case["expected_classes"]
+            elif set(errs) != set(S):  # the contamination does not make exactly these cells raise: not an instance of the property
                 res.notes.append(f"{name}: {bad} in {where} made {sorted(errs)} raise, planted {sorted(S)} — case skipped")
                 continue
-            classes = [type(errs[c]).__name__ for c in cells if c in errs]
-            raising_seen.setdefault(name, set()).update(f"{type(e).__name__}: {str(e)[:50]}" for e in errs.values())
-            pcase = {**case, **G.pack(obs, hist, fut), **G.pack(obs0, hist0, fut0, "clean_")}
+            else:
+                classes = [type(errs[c]).__name__ for c in cells if c in errs]
             for failsafe in (True, False):
                 runs = [("serial", True, G.run_apply(deb, obs, hist, fut, failsafe=failsafe))]
                 runs += [(f"parallel/{p}", False, G.run_apply(deb, obs, hist, fut, parallel=True, nproc=p, failsafe=failsafe)) for p in procs]
@@ -400,16 +422,21 @@ def replay(data):
         return 1
     _, errs = G.stacked(fresh, obs, hist, fut, out_T, fut.dtype, **kw)
     classes = [type(errs[c]).__name__ for c in cells if c in errs]
-    if set(errs) != set(S):
-        print(f"note: cells that raise on their own: {sorted(errs)}; recorded S: {sorted(S)}")
     problems = []
+    failing = set(errs)
+    if fi.get("expected_classes"):  # ground truth recorded independently of the code under test
+        classes, failing = fi["expected_classes"], set(S)
+        for c in sorted(set(S) - set(errs)):
+            problems.append((f"location {c} must fail but apply_location on the cell alone returned a result", fi))
+    elif set(errs) != set(S):
+        print(f"note: cells that raise on their own: {sorted(errs)}; recorded S: {sorted(S)}")
     case = {k: v for k, v in fi.items() if not k.endswith(("obs", "hist", "fut"))}
     for failsafe in (True, False):
         runs = [("serial", True, G.run_apply(fresh(), obs, hist, fut, failsafe=failsafe, **kw))]
         runs += [(f"parallel/{p or 'default'}", False, G.run_apply(fresh(), obs, hist, fut, parallel=True, nproc=p, failsafe=failsafe, **kw)) for p in fi.get("nprocs") or [2]]
         for label, serial, r in runs:
             if failsafe:
-                check_failsafe_on(label, r, clean_r[1], set(errs), cells, out_T, problems, case)
+                check_failsafe_on(label, r, clean_r[1], failing, cells, out_T, problems, case)
             else:
                 check_failsafe_off(label, r, clean_r[1], classes, serial, problems, case)
     for p, _ in problems:
